@@ -419,6 +419,9 @@ def finish(res, level_text_extra=None):
     reported = []
     exit_code = 0
     os.makedirs(os.path.join(VERIF, "replays"), exist_ok=True)
+    for fn in os.listdir(os.path.join(VERIF, "replays")):
+        if fn.startswith(pid + "_") and fn.endswith(".json"):
+            os.remove(os.path.join(VERIF, "replays", fn))
     seen_sig = set()
     known_printed = set()
     for v in res.violations:
@@ -427,10 +430,12 @@ def finish(res, level_text_extra=None):
         seen_sig.add(v["signature"])
         if v["no_input"] and concrete and v["signature"].startswith("corr:"):
             continue
-        k = next((k for k in known if k.get("signature") == v["signature"]), None)
+        k = next((k for k in known if (k.get("signature") == v["signature"]) or
+                  (k.get("signature_re") and re.fullmatch(k["signature_re"], v["signature"]))), None)
         if k:
-            if k["signature"] not in known_printed:
-                known_printed.add(k["signature"])
+            kid = k.get("signature") or k.get("signature_re")
+            if kid not in known_printed:
+                known_printed.add(kid)
                 print(f"KNOWN-FINDING: property={pid} {k.get('what', v['what'])}")
             continue
         rp = os.path.join(VERIF, "replays", f"{pid}_{len(reported)}.json")
